@@ -14,11 +14,14 @@ import (
 
 // pendingStart is an API call that the scheduler may start at any quiescent point.
 type pendingStart struct {
-	Key    string
-	Node   uint16
-	Weight float64
-	Start  func() *netsim.Call
-	Call   *netsim.Call
+	Key       string
+	Node      uint16
+	Weight    float64
+	JoinWith  bool // concurrent dispatch: the start waits for a delivery into its node and joins that step
+	JoinClass string
+	JoinP     float64
+	Start     func() *netsim.Call
+	Call      *netsim.Call
 }
 
 type starter struct {
@@ -38,7 +41,7 @@ func (s *starter) proposals() []netsim.Proposal {
 			continue
 		}
 		p := p
-		out = append(out, netsim.Proposal{Key: p.Key, Mandatory: true, Weight: p.Weight, Fire: func() { p.Call = p.Start() }})
+		out = append(out, netsim.Proposal{Key: p.Key, Mandatory: true, Weight: p.Weight, JoinWith: p.JoinWith, JoinNode: p.Node, JoinClass: p.JoinClass, JoinP: p.JoinP, Fire: func() { p.Call = p.Start() }})
 	}
 	return out
 }
@@ -140,7 +143,20 @@ func signersFor(d *Deployment, r *prng.Rand, topic string) []uint16 {
 
 func genScriptedParams(r *prng.Rand, maxRounds int) scripted.Params {
 	p := scripted.Params{Rounds: r.Range(1, maxRounds), Bcast: r.Range(1, 3), P2P: r.Range(0, 3), Lockstep: r.Bool(0.3), BodyLen: r.Range(8, 40)}
+	// wire rounds are RoundBase .. RoundBase+span; the documented range is 0..127: a quarter of the sessions end
+	// exactly at 127, a tenth start at 0
+	width := 1
+	if p.Bcast > 1 {
+		width = p.Bcast
+	}
+	span := (p.Rounds-1)*width + p.Bcast - 1
 	p.RoundBase = uint8(r.Range(0, 127-p.Rounds*3))
+	switch x := r.Intn(20); {
+	case x < 5:
+		p.RoundBase = uint8(127 - span)
+	case x < 7:
+		p.RoundBase = 0
+	}
 	// a quarter of the backends take simulated time to initialise (see scripted.Params.InitDelayMs)
 	if r.Bool(0.25) {
 		p.InitDelayMs = r.Range(1, 40)
